@@ -28,7 +28,7 @@ type C16Scenario struct {
 
 func (*C16a) ID() string { return "C16" }
 func (*C16a) Rule() string {
-	return "(a) worlds as for C11 (npm/relax and Maven/override, default scoping options, MaxUpgrades=0) with >= 2 vulnerabilities favoured (one goroutine per vulnerability, more for introduced ones); each world is executed under the run-to-completion schedule (what instantly answering mocks give) and under 8 (quick) / 16 (thorough) seeded schedule vectors, each `reps` times; the complete list returned by the strategy's ComputePatches (overlay export; nothing chosen, nothing written) and the in-scope vulnerability list must be deep-equal in all runs, sorted by Patch.Compare with no two adjacent equal elements; additionally one free-running computation (no scheduler) must return the same list, and the real FixVulns runs under the first three schedules and its Result must be equal; built with -race: any race report is a violation; scheduling points: every registry call of the deps.dev resolver and every matcher call, channel hand-overs sequenced by quiescence; non-trivial = at least 2 patch goroutines and at least 2 distinct interleavings (distinct sequences of (actor, call)) observed; distinct = distinct scenario JSON"
+	return "(a) worlds as for C11 (npm/relax and Maven/override, default scoping options, MaxUpgrades=0) with >= 2 vulnerabilities favoured (one goroutine per vulnerability, more for introduced ones); each world is executed under the run-to-completion schedule (what instantly answering mocks give) and under 8 (quick) / 16 (thorough) seeded schedule vectors, each `reps` times; the complete list returned by the strategy's ComputePatches (overlay export; nothing chosen, nothing written) and the in-scope vulnerability list must be deep-equal in all runs, sorted in the documented patch order (own comparison, not Patch.Compare) with no two adjacent equal elements; additionally one free-running computation (no scheduler) must return the same list, and the real FixVulns runs under the first three schedules and its Result must be equal; built with -race: any race report is a violation; scheduling points: every registry call of the deps.dev resolver and every matcher call, channel hand-overs sequenced by quiescence; non-trivial = at least 2 patch goroutines and at least 2 distinct interleavings (distinct sequences of (actor, call)) observed; distinct = distinct scenario JSON"
 }
 
 func (*C16a) Gen(rt *rapid.T, tier string) any {
@@ -53,11 +53,56 @@ func (*C16a) Decode(raw json.RawMessage) (any, error) {
 	return &s, err
 }
 
-// checkSortedCompact: sorted by Patch.Compare, no two adjacent equal elements.
-func checkSortedCompact(w *World, ps []result.Patch, out *sim.Outcome, label, ctx string) {
+// ownCompare is the documented patch order, written independently of result.Patch.Compare:
+// (fixed - introduced) per changed package descending, number of fixed descending, number of
+// changed packages ascending, names ascending, then new versions ascending (as versions if both
+// parse, else as strings), package by package.
+func ownCompare(w *World, a, b result.Patch) int {
+	sgn := func(x, y int) int {
+		switch {
+		case x < y:
+			return -1
+		case x > y:
+			return 1
+		}
+		return 0
+	}
+	if c := sgn((len(b.Fixed)-len(b.Introduced))*len(a.PackageUpdates), (len(a.Fixed)-len(a.Introduced))*len(b.PackageUpdates)); c != 0 {
+		return c
+	}
+	if c := sgn(len(b.Fixed), len(a.Fixed)); c != 0 {
+		return c
+	}
+	if c := sgn(len(a.PackageUpdates), len(b.PackageUpdates)); c != 0 {
+		return c
+	}
+	for i := range a.PackageUpdates {
+		if c := strings.Compare(a.PackageUpdates[i].Name, b.PackageUpdates[i].Name); c != 0 {
+			return c
+		}
+	}
 	sys := semverOf(w)
+	for i := range a.PackageUpdates {
+		x, y := a.PackageUpdates[i].VersionTo, b.PackageUpdates[i].VersionTo
+		vx, ex := sys.Parse(x)
+		vy, ey := sys.Parse(y)
+		if ex != nil || ey != nil {
+			if c := strings.Compare(x, y); c != 0 {
+				return c
+			}
+			continue
+		}
+		if c := vx.Compare(vy); c != 0 {
+			return c
+		}
+	}
+	return 0
+}
+
+// checkSortedCompact: sorted in the documented order, no two adjacent equal elements.
+func checkSortedCompact(w *World, ps []result.Patch, out *sim.Outcome, label, ctx string) {
 	for i := 1; i < len(ps); i++ {
-		c := ps[i-1].Compare(ps[i], sys)
+		c := ownCompare(w, ps[i-1], ps[i])
 		if c > 0 {
 			out.Violate("unsorted-patches", "unsorted-patches:"+w.Sys, "%s: patch #%d %s sorts after patch #%d %s; %s", label, i-1, patchString(ps[i-1]), i, patchString(ps[i]), ctx)
 		}
